@@ -494,6 +494,11 @@ func (e *Engine) GLen() []report.Obligation {
 				if lenCalls[ref] {
 					continue
 				}
+				if c, isCall := ref.(*ssa.Call); isCall {
+					if b, isB := c.Common().Value.(*ssa.Builtin); isB && (b.Name() == "len" || b.Name() == "cap") {
+						continue // taking a length touches no element (e.g. to format the panic message)
+					}
+				}
 				if !(ref.Block() == okSucc || okSucc.Dominates(ref.Block())) {
 					o.OK = false
 					o.Pos = e.P.Rel(ref.Pos())
